@@ -1,7 +1,6 @@
 """Derive decisions for C14: spec/MCAutoDerive.tla evaluates the as-built AutoDerivePlugin (spec/AutoDerive.tla) on all 28 561
 type graphs over three structs, in every order of the top-level calls, proves that its decisions are the ideal ones (and do
-not depend on the order) unless an f64 sits behind Arc / a btree container, refutes the type graph as it was before fix
-0004637, and writes every graph with its signature and the predicted outcome.  This module picks representatives per
+not depend on the order), refutes the type graph as it was before fix 0004637 and the predicate as it was before fix 280118d, and writes every graph with its signature and the predicted outcome.  This module picks representatives per
 signature and renders them as IDL."""
 import json, random
 import common as c
@@ -48,7 +47,7 @@ def select(tier, seed):
         okk = [k for k in keys if k[0] and not k[1]]
         bad = [k for k in keys if not k[0]]
         rnd.shuffle(pre); rnd.shuffle(okk); rnd.shuffle(bad)
-        keys = sorted(pre[:12] + okk[:24] + bad[:8])
+        keys = sorted(pre[:20] + okk[:24] + bad[:8])
     stats = {"tlc": st, "graphs": len(gs), "signatures": len(by), "signatures_refuted_before_fix": len([k for k in by if k[1]]),
              "predicted_not_to_compile": len([k for k in by if not k[0]])}
     return [(by[k]["g"], by[k]["ok"], by[k]["refuted_before_fix"], i) for i, k in enumerate(keys)], stats
